@@ -11,6 +11,7 @@ def digits (n : Nat) : Bytes := (toString n).toList.map fun c => UInt8.ofNat c.t
 def itemLen (cls : String) (i : Nat) : Nat :=
   let pre := (digits i).length + 1
   if cls.startsWith "X" then (if i = 0 then max pre (nat! (cls.drop 1).toString) else pre)
+  else if cls.startsWith "W" then (if i = 1 then max pre (nat! (cls.drop 1).toString) else pre)
   else if cls.startsWith "Z" then nat! (cls.drop 1).toString
   else if cls = "s" then pre
   else if cls = "m" then pre + 300
